@@ -73,6 +73,45 @@ def ready_time_functions(mod):
                 out.add(e[0]['n'])
     return out
 
+CARRIERS = ('nsync_mu_s_.word', 'nsync_cv_s_.word', 'nsync_waiter_s.waiting', 'waiter.remove_count', 'nsync_note_s_.notified', 'nsync_counter_s_.value', 'futex.i')
+
+def _helper_actuals(mod, eng, name, seen=None):
+    """address classes of the actual arguments bound to the atomic-address parameters of generic helper `name`, following helpers that
+    forward their own parameter"""
+    seen = seen if seen is not None else set()
+    if name in seen:
+        return []
+    seen.add(name)
+    out = []
+    params = eng.generic_atomic.get(name, ())
+    for f in mod.defined.values():
+        for i in f.real_insts():
+            if i.op == 'call' and i.callee == name:
+                for a in params:
+                    k = int(a[1:])
+                    if k < len(i.ops):
+                        ac = util.addr_class(mod, f, i.ops[k])
+                        if ac['kind'] == 'arg' and not ac['path'] and ac['arg'] in eng.generic_atomic.get(f.name, ()):
+                            out += _helper_actuals(mod, eng, f.name, seen)
+                        else:
+                            out.append(ac)
+    return out
+
+def helper_reaches_lock_word(mod, eng, name):
+    for ac in _helper_actuals(mod, eng, name):
+        lf = util.last_field(ac)
+        if lf in CARRIERS:
+            return True
+        if lf is None and ac['kind'] not in ('global', 'alloca'):
+            return True          # a pointer of unknown origin: cannot exclude a carrier
+        if ac['kind'] == 'global' and 'free_waiters_mu' in ac.get('name', ''):
+            return True
+    return False
+
+def helper_targets(mod, eng, name):
+    t = sorted(set((util.last_field(ac) or ac.get('name') or ac['kind']) for ac in _helper_actuals(mod, eng, name)))
+    return ', '.join(t[:4]) or 'nothing'
+
 def classify(ctx, rep):
     """returns (requirements: key -> (need, reason, where), unconstrained: key -> reason)"""
     mod = ctx.mod('C')
@@ -134,7 +173,9 @@ def classify(ctx, rep):
                 raise AnalysisBroken('C03.R4: write to a lock word at %s was not interpreted by the engine' % w)
         elif ac['kind'] == 'arg' and not ac['path'] and fn.name in eng.generic_atomic and fn.name not in once_fns:
             if s.kind == 'load':
-                free[key] = 'pre-check load inside a generic lock-word helper; its acquiring CAS follows'
+                free[key] = 'pre-check load inside a generic helper; its RMW follows'
+            elif not helper_reaches_lock_word(mod, eng, fn.name):
+                free[key] = 'helper %s is never applied to a lock word or publication flag (its callers pass %s): no listed hand-off passes through it' % (fn.name, helper_targets(mod, eng, fn.name))
             else:
                 raise AnalysisBroken('C03.R4: RMW in generic helper %s at %s was not interpreted by the engine' % (fn.name, w))
         elif ac['kind'] == 'global' and not ac['path'] and s.kind == 'store' and 'free_waiters_mu' in ac['name']:
@@ -206,6 +247,8 @@ def classify(ctx, rep):
             free[key] = 'debug flag used only by an assertion'
         elif lf == 'futex.i':
             free[key] = 'semaphore count: every sleeper re-reads its wake flag with acquire after P (C12 decides the protocol)'
+        elif (lf is not None and lf not in CARRIERS) or (lf is None and ac['kind'] in ('global', 'alloca')):
+            free[key] = 'location %s is not one through which any of the listed hand-offs passes (lock words, waiting flag, once word, notified flag, counter value)' % (lf or ac.get('name') or ac['kind'])
         else:
             raise AnalysisBroken('C03.R4: atomic %s at %s on %s is not classified (new atomic site: extend the table in nsa/rules/C03.py with its role)'
                                  % (s.kind, w, lf or ac['kind']))
